@@ -475,7 +475,7 @@ func c03fRun(c *vt.Ctx, s c03fScenario) {
 		if err := n.gc(ctx, w.node); err != nil {
 			c.Trace("gc: %v", err)
 		}
-	case "sync":
+	case "sync", "sync2":
 		if err := n.syncPods(ctx, podReqs, w.node); err != nil {
 			c.Trace("syncPods: %v", err)
 		}
@@ -539,7 +539,7 @@ func c03fRun(c *vt.Ctx, s c03fScenario) {
 					}
 				}
 				c.Label(cls)
-				if (s.Entry == "release" || s.Entry == "sync") && !nameThere && ip.PodUID != "" && c03cloud.TeardownReported(ip.PodUID, w.rt) {
+				if (s.Entry == "release" || s.Entry == "sync" || s.Entry == "sync2") && !nameThere && ip.PodUID != "" && c03cloud.TeardownReported(ip.PodUID, w.rt) {
 					var now *networkv1beta1.IP
 					if a := after[id]; a != nil {
 						if fam == "v4" {
@@ -559,6 +559,62 @@ func c03fRun(c *vt.Ctx, s c03fScenario) {
 	}
 	if len(touches) > 0 {
 		c.Label("touched-with-open-gate")
+	}
+	if len(w.takeover) > 0 {
+		for _, a := range after {
+			for _, m := range []map[string]*networkv1beta1.IP{a.IPv4, a.IPv6} {
+				for _, ip := range m {
+					for _, p := range w.takeover {
+						if ip.PodID == p && (s.Entry == "sync" || s.Entry == "sync2") {
+							c.Label("take-over:address-linked-to-reporting-pod")
+						}
+					}
+				}
+			}
+		}
+	}
+
+	// 4. second pass (entry sync2): some pod objects vanish before the next pass. The
+	// reclaims of that pass are judged against the ground-truth owner of each binding:
+	// a binding the first pass created or took over belongs to the pod object (UID) that
+	// existed then, whatever UID the record carries.
+	if s.Entry == "sync2" {
+		owners := c03cloud.SeedOwners(before)
+		c03cloud.TrackOwners(owners, before, after, w.pods)
+		before2 := c03cloud.WithTruth(after, owners)
+		pods2 := map[string]c03cloud.PodView{}
+		for k, v := range w.pods {
+			pods2[k] = v
+		}
+		for i, p := range s.Pods {
+			if p.Present && p.Vanish {
+				pod := &corev1.Pod{ObjectMeta: metav1.ObjectMeta{Namespace: "ns", Name: fmt.Sprintf("p%d", i)}}
+				if err := w.cl.Delete(ctx, pod); err != nil {
+					c.Inconclusive("delete pod: " + err.Error())
+				}
+				delete(pods2, c03fPodID(i))
+				for _, t := range w.takeover {
+					if t == c03fPodID(i) {
+						c.Label("take-over:pod-vanishes-before-next-pass")
+					}
+				}
+			}
+		}
+		w.cloud.SetFaults(nil)
+		podReqs2, err := n.getPods(ctx, w.node)
+		if err != nil {
+			c.Fatalf("getPods: %v", err)
+		}
+		if err := n.syncPods(ctx, podReqs2, w.node); err != nil {
+			c.Trace("syncPods (2): %v", err)
+		}
+		calls2 := w.cloud.TakeLog()
+		for _, tch := range c03cloud.Touches(before2, w.node.Status.NetworkInterfaces, calls2) {
+			ok, why := c03cloud.MayReclaim(tch.PodID, tch.PodUID, pods2, w.rt)
+			if !ok {
+				c.Fatalf("entry sync2, second pass reclaimed a bound address: %s -- but %s (UID is the ground truth: the pod object the binding was made for)", tch, why)
+			}
+		}
 	}
 	switch s.Entry {
 	case "release":
